@@ -30,6 +30,7 @@ func checkC06(c *Ctx, r *Report) {
 	endingConsumesLine(c, r, "C06.R6.ending-consumes-line")
 	c06SlurpEOF(c, r, "C06.R6.slurp-eof")
 	c06GenerateInherits(c, r, "C06.R4.generate-inherits")
+	genericPrefix(c, r, "C06.R6.generic-prefix")
 }
 
 // mustPassExit is mustPass restricted to the exits accepted by isExit.
